@@ -33,6 +33,18 @@ class Ncp:
         self.drop_next_rx = 0
         self.drop_next_tx = 0
         self.cb_seq = 0
+        # a reset takes time: with boot_delay > 0 the NCP is deaf after an RST and announces itself (RSTACK) when it is up again;
+        # `defer(delay, fn)` is provided by the world the NCP lives in
+        self.boot_delay = 0.0
+        self.booting = False
+        self.boot_gen = 0
+        self.defer = None
+
+    def _booted(self, gen):
+        if gen != self.boot_gen:
+            return  # another reset restarted the boot
+        self.booting = False
+        self._send(ashlib.spec_wire("K", code=self.reset_code))
 
     # ------------------------------------------------------------------ link
     def reset_link(self):
@@ -70,7 +82,14 @@ class Ncp:
             return
         if f[0] == "R":
             self.reset_link()
+            if self.boot_delay and self.defer is not None:
+                self.booting = True
+                self.boot_gen += 1
+                self.defer(self.boot_delay, lambda g=self.boot_gen: self._booted(g))
+                return
             self._send(ashlib.spec_wire("K", code=self.reset_code))
+            return
+        if self.booting:
             return
         if f[0] == "D":
             _, frm, retx, ack, payload = f
